@@ -2,3 +2,4 @@
 //! seeded generators, and projects their state to NDJSON traces that TLC validates.
 pub mod common;
 pub mod netgen;
+pub mod build;
